@@ -191,6 +191,8 @@ def features(spec):
         "link_reservoir_to_reservoir": any(l["start"] not in tanks and l["end"] not in tanks and
                                            {l["start"], l["end"]} <= set(n["name"] for n in srcs) for l in elinks),
         "valve_setting_changed_by_control": any(c.get("attr", "setting") == "setting" for c in spec.get("controls", [])),
+        "unbalanced_continue": spec["options"].get("unbalanced") == "CONTINUE",
+        "small_trials": spec["options"].get("trials") is not None,
         "link_status_changed_by_control": any(c.get("attr") == "status" for c in spec.get("controls", [])),
         "reversed_links": any(e["op"] == "reverse" for e in spec.get("edits", [])),
         "end_node_reassigned": any(e["op"] != "reverse" for e in spec.get("edits", [])),
@@ -233,6 +235,15 @@ def gen_specs(ctx, n_random, n_scen):
     specs = []
     for i in range(n_scen):
         specs.append(G.scenario_network(rng, G.SCENARIOS[i % len(G.SCENARIOS)], variant=i // len(G.SCENARIOS)))
+    # status-iteration option sets: unbalanced x trials on the scenarios whose statuses change during a step
+    k = 0
+    for nm in (["cv_cascade", "cv_cascade", "cv_reverse", "cv_cascade", "pump_shutoff", "psv", "cv_cascade", "prv", "cv_htol", "fcv"] if n_scen >= len(G.SCENARIOS) else []):
+        sp = G.scenario_network(rng, nm, variant=0)
+        sp["options"]["trials"] = [1, 2, 1, 3, 2, 1, 2, 3, 1, 2][k % 10]
+        sp["options"]["unbalanced"] = ["CONTINUE", "CONTINUE", "STOP", "CONTINUE", "CONTINUE", "STOP", "STOP", "CONTINUE", "CONTINUE", "STOP"][k % 10]
+        sp["features"]["status_iteration_options"] = True
+        specs.append(sp)
+        k += 1
     for v in range(2, 6):  # the remaining cut-set variants (the loop above gives variants 0 and 1)
         if n_scen >= 2 * len(G.SCENARIOS):
             specs.append(G.scenario_network(rng, "cutset", variant=v))
